@@ -384,6 +384,10 @@ class Reader:
             elif a == "load":
                 address = self.parse_value_ref()
                 ins = ir.Load(address, name, ty)
+            elif a == "volatile":
+                self.consume_keyword("load")
+                address = self.parse_value_ref()
+                ins = ir.Load(address, name, ty, volatile=True)
             elif a == "cast":
                 value = self.parse_value_ref()
                 ins = ir.Cast(value, name, ty)
@@ -444,12 +448,15 @@ class Reader:
             ins = self.parse_cjmp()
         elif self.at_keyword("return"):
             ins = self.parse_return()
-        elif self.at_keyword("store"):
+        elif self.at_keyword("store") or self.at_keyword("volatile"):
+            volatile = self.at_keyword("volatile")
+            if volatile:
+                self.consume_keyword("volatile")
             self.consume_keyword("store")
             value = self.parse_value_ref()
             self.consume(",")
             address = self.parse_value_ref()
-            ins = ir.Store(value, address)
+            ins = ir.Store(value, address, volatile=volatile)
         elif self.at_keyword("exit"):
             self.consume_keyword("exit")
             ins = ir.Exit()
